@@ -86,12 +86,18 @@ Definition walk_verdict (target : bytes) (snapx cbsx : sx) (err : N) (info : lis
   | _, _ => v_malformed
   end.
 
-(* kind 0901: input = (view extra-links target api); api 0 = NewFS(dir).Walk(ctx, target, fn),
+(* kind 0901: input = (view extra-links target api [rootform]); api 0 = NewFS(dir).Walk(ctx, target, fn),
    1 = fsutil.WalkDir(dir, nil), 2 = fsutil.WalkDir(dir, &FilterOpt{}), 3 = fsutil.Walk(dir, nil)
-   (1-3 always walk "/").  impl = (snapshot callbacks err). *)
+   (1-3 always walk "/").  impl = (snapshot callbacks err).
+   rootform (optional) = HOW the harness names the directory to the code (the real directory, a
+   symlink to it, a path through a symlinked parent, with trailing slash / "." / ".." segments,
+   relative ...).  It is part of the recipe only: the snapshot is taken of the directory the name
+   RESOLVES to, and neither the model nor the specification depends on the form - the callbacks
+   must be the reference walk of that directory whatever it was called. *)
 Definition run_0901 (input impl : sx) : sx :=
   match input, impl with
-  | SL [_; _; SB target0; SN api], SL [snapx; cbsx; SN err] =>
+  | SL [_; _; SB target0; SN api], SL [snapx; cbsx; SN err]
+  | SL [_; _; SB target0; SN api; SN _], SL [snapx; cbsx; SN err] =>
     walk_verdict (if N.eqb api 0 then target0 else [sep]) snapx cbsx err (fun _ => SL [])
   | _, _ => v_malformed
   end.
@@ -127,8 +133,9 @@ Definition sort_paths (l : list (bytes * lrec)) : list (bytes * lrec) := fold_ri
 Definition ref_walk (snap : list (bytes * lrec)) : list stat :=
   map (fun e => spec_stat snap (fst e) (snd e)) (sort_paths snap).
 
+(* (dirstat view extra-links [rootform]) *)
 Definition dec_sd_in (s : sx) : option stat :=
-  match s with SL [st; _; _] => dec_stat st | _ => None end.
+  match s with SL [st; _; _] | SL [st; _; _; SN _] => dec_stat st | _ => None end.
 
 Fixpoint zip_sds (sts : list stat) (snaps : list (list (bytes * lrec))) : option (list (subdir * list (bytes * lrec))) :=
   match sts, snaps with
